@@ -78,7 +78,10 @@ func cmdCheck(args []string) {
 		timeout = 120
 		solverList = []string{"z3-new", "z3-em", "cvc5", "z3"}
 	}
-	work := filepath.Join(verif, "work", pid)
+	// VERIF_OUT redirects work files and evidence (used when a check is run against a scratch copy carrying a seeded change,
+	// so that the committed evidence of the real tree is not overwritten)
+	outDir := envOr("VERIF_OUT", verif)
+	work := filepath.Join(outDir, "work", pid)
 	os.RemoveAll(work)
 	os.MkdirAll(work, 0755)
 
@@ -320,9 +323,9 @@ func cmdCheck(args []string) {
 			"contract_files":           eng.db.Files,
 			"slow_obligations_left_to_thorough_tier": skippedSlow,
 		}}
-	os.MkdirAll(filepath.Join(verif, "evidence"), 0755)
+	os.MkdirAll(filepath.Join(outDir, "evidence"), 0755)
 	b, _ := json.MarshalIndent(ev, "", " ")
-	os.WriteFile(filepath.Join(verif, "evidence", pid+".json"), b, 0644)
+	os.WriteFile(filepath.Join(outDir, "evidence", pid+".json"), b, 0644)
 
 	for _, l := range knownLines {
 		fmt.Println(l)
